@@ -625,14 +625,15 @@ class Body:
         TOP = None
         fin = {b: TOP for b in nodes}
         fin[0] = frozenset()
-        writes = {b: self.block_may_write(b) for b in nodes}
+        writes = {b: self.block_writes(b) for b in nodes}
 
         def out_of(b):
             f = fin[b]
             if f is TOP:
                 return TOP
-            if writes[b]:
-                f = frozenset(x for x in f if not fact_reads_memory(x))
+            w = writes[b]
+            if w:
+                f = frozenset(x for x in f if not fact_killed(x, w))
             return f
         changed = True
         it = 0
@@ -676,13 +677,55 @@ class Body:
                         return True
         return False
 
+    def block_writes(self, b):
+        """memory possibly written by block b: 'ALL' or a list of (root, field-chain) access paths"""
+        key = ('bw', b)
+        if key in self._cache:
+            return self._cache[key]
+        out = []
+        blk = self.blocks[b]
+
+        def add_place_expr(e):
+            root, ch = field_chain(e)
+            if root[0] == 'param':
+                out.append((('param', root[2]), tuple(ch)))
+                return True
+            return False
+        res = None
+        for st in blk['stmts']:
+            if st['k'] == 'assign' and st['place']['p']:
+                if not add_place_expr(self.place_expr(st['place'])):
+                    res = 'ALL'
+        t = blk['term']
+        if t['k'] == 'call' and res is None:
+            if t['dest']['p'] and not add_place_expr(self.place_expr(t['dest'])):
+                res = 'ALL'
+            for a in t['args']:
+                if a['k'] in ('copy', 'move'):
+                    ty = a['place']['ty']
+                    if ty.startswith('&mut') or ty.startswith('*mut'):
+                        if not add_place_expr(self.op_expr(a)):
+                            # a mutable borrow of a local that holds no further mutable reference
+                            # cannot alias memory reachable from the parameters
+                            if '&mut' in ty[4:] or '*mut' in ty[4:] or 'dyn ' in ty or 'Box<' in ty or 'Rc<' in ty or 'RefCell' in ty:
+                                res = 'ALL'
+                            else:
+                                e = peel(self.op_expr(a), calls=False)
+                                if e[0] not in ('local', 'aggr', 'call', 'phi', 'int', 'cyc'):
+                                    res = 'ALL'
+        if res is None:
+            res = out
+        self._cache[key] = res
+        return res
+
     def facts_at(self, bb):
         return self.facts_in().get(bb, frozenset())
 
     def facts_on_edge(self, src, dst):
         f = self.facts_in().get(src, frozenset())
-        if self.block_may_write(src):
-            f = frozenset(x for x in f if not fact_reads_memory(x))
+        w = self.block_writes(src)
+        if w:
+            f = frozenset(x for x in f if not fact_killed(x, w))
         return f | frozenset(self.edge_facts().get((src, dst), []))
 
     # --- uses ---------------------------------------------------------------------------------
@@ -747,6 +790,33 @@ class Body:
         self._cache[key] = u
         return u
 
+    def all_places(self):
+        """every place mentioned in the body (reads and writes): yields (bb, place)"""
+        for i in self.live:
+            blk = self.blocks[i]
+            for st in blk['stmts']:
+                if st['k'] != 'assign':
+                    continue
+                yield i, st['place']
+                rv = st['rv']
+                if 'place' in rv:
+                    yield i, rv['place']
+                for o in _rv_operands(rv):
+                    if o['k'] in ('copy', 'move'):
+                        yield i, o['place']
+            t = blk['term']
+            if t['k'] == 'call':
+                yield i, t['dest']
+                for a in t['args']:
+                    if a['k'] in ('copy', 'move'):
+                        yield i, a['place']
+                if t['func']['k'] in ('copy', 'move'):
+                    yield i, t['func']['place']
+            elif t['k'] == 'switch' and t['discr']['k'] in ('copy', 'move'):
+                yield i, t['discr']['place']
+            elif t['k'] == 'drop':
+                yield i, t['place']
+
     def real_uses(self, l):
         return [x for x in self.uses().get(l, []) if x[2] != 'drop']
 
@@ -772,6 +842,25 @@ class Body:
             if t['k'] == 'assert':
                 out.append((i, t))
         return out
+
+
+def fact_killed(f, writes):
+    """is fact f invalidated by the given writes ('ALL' or access paths)?"""
+    if not fact_reads_memory(f):
+        return False
+    if writes == 'ALL':
+        return True
+    for x in walk(f[1]):
+        if x[0] in ('field', 'idx', 'deref', 'cidx', 'subslice'):
+            root, ch = field_chain(x)
+            if root[0] != 'param':
+                return True  # memory reached through something we cannot name
+            for (wr, wch) in writes:
+                if wr == ('param', root[2]):
+                    n = min(len(ch), len(wch))
+                    if tuple(ch[:n]) == tuple(wch[:n]):
+                        return True
+    return False
 
 
 def fact_reads_memory(f):
@@ -910,6 +999,9 @@ def field_chain(e):
             names.append(e[2])
             e = e[1]
         elif e[0] == 'variant':
+            e = e[1]
+        elif e[0] in ('idx', 'cidx', 'subslice'):
+            names.append('[]')
             e = e[1]
         else:
             return e, names[::-1]
@@ -1316,12 +1408,14 @@ def method_name(path):
     return segs[-1] if segs else path
 
 
-def canon(e, keep_casts=True, _d=0):
+def canon(e, keep_casts=True, _d=0, labels=None):
     """canonical string of an expression: refs/derefs and transparent calls are dropped, parameters are
     positional (self, a2, a3..), `(next(I) as Some).0` is each(I), `x?` is x?, calls use the method name."""
     if _d > 40:
         return '…'
     d = _d + 1
+    if labels is not None:
+        return _canon_l(e, keep_casts, d, labels)
     if not isinstance(e, tuple) or not e:
         return repr(e)
     k = e[0]
@@ -1416,3 +1510,28 @@ def canon(e, keep_casts=True, _d=0):
     if k == 'unknown':
         return '?<%s>' % e[1]
     return repr(e)
+
+
+def _canon_l(e, keep_casts, d, labels):
+    """canon() with call-site labels: calls whose site is in `labels` are rendered name#label(...)"""
+    import functools
+    global canon
+    orig = canon
+
+    def wrapped(x, kc=True, _d=0, labels=None):
+        if isinstance(x, tuple) and x and x[0] == 'call' and len(x) > 3 and x[3] in _LBL[0]:
+            m = method_name(x[1])
+            if x[2] and is_transparent_call(x[1]):
+                return orig(x, kc, _d)
+            return '%s#%s(%s)' % (m, _LBL[0][x[3]], ', '.join(wrapped(a, kc, _d + 1) for a in x[2]))
+        return orig(x, kc, _d)
+    _LBL.insert(0, labels)
+    canon = wrapped
+    try:
+        return wrapped(e, keep_casts, d)
+    finally:
+        canon = orig
+        _LBL.pop(0)
+
+
+_LBL = []
